@@ -575,6 +575,21 @@ def rule_count_dtype(repo: Repo, rep: Report) -> int:
 
 
 def run(repo: Repo, rep: Report, tier: str) -> None:
+    if tier == "thorough":
+        for file_, cname_ in ((BER, "BitErrorRate"), (BLER, "BlockErrorRate")):
+            ci_ = repo.cls(file_, cname_)
+            bufs_ = list(buffers_of(ci_))
+            err_ = next((b_ for b_ in bufs_ if "err" in b_), None)
+            tot_ = next((b_ for b_ in bufs_ if "total" in b_), None)
+            if err_ and tot_:
+                ev_ = streaming_evaluated(repo, ci_, f"self.{err_}", f"self.{tot_}", STREAM_ATTRS.get(cname_, {}))
+                if ev_[0] is not None:
+                    rep.add("SIBLING", repo.method(ci_, "update"), f"{cname_}: update() over several batches + compute() against forward() on the concatenated data (thorough tier)", OK if ev_[0] else VIOLATION, ev_[1])
+        ci_ = repo.cls(BLER, "BlockErrorRate")
+        for m_ in ("forward", "update"):
+            ev_ = blocks_evaluated(repo, ci_, m_)
+            if ev_[0] is not None:
+                rep.add("BLOCKS", repo.method(ci_, m_), f"{m_}: block error rate evaluated on discriminating error patterns (thorough tier)", OK if ev_[0] else VIOLATION, ev_[1])
     n = rule_count_dtype(repo, rep)
     n += analyse_metric(repo, rep, BER, "BitErrorRate", {})
     n += analyse_metric(repo, rep, BLER, "BlockErrorRate", {"self.reduction == 'none'": False, "self.reduction == 'sum'": False})
